@@ -353,21 +353,35 @@ func (c *Component) addToIndexes(sess *SessionState) {
 }
 
 func (c *Component) removeFromIndexes(sess *SessionState) {
+	// Every index is keyed by a value that another session can carry as well: a
+	// replayed PADR re-uses the tuple, the Username is whatever the peer sent in
+	// its PAP/CHAP packet, addresses come from AAA. Only drop the entries that
+	// really point to this session, never those of the session that shares the key.
 	key := c.sessionKey(sess.MAC, sess.OuterVLAN, sess.InnerVLAN)
-	delete(c.sessions, key)
-	delete(c.sidIndex, sess.PPPoESessionID)
-	delete(c.sessionIDIndex, sess.SessionID)
-	if sess.AcctSessionID != "" {
+	if c.sessions[key] == sess {
+		delete(c.sessions, key)
+	}
+	if c.sidIndex[sess.PPPoESessionID] == sess {
+		delete(c.sidIndex, sess.PPPoESessionID)
+	}
+	if c.sessionIDIndex[sess.SessionID] == sess {
+		delete(c.sessionIDIndex, sess.SessionID)
+	}
+	if sess.AcctSessionID != "" && c.acctSessionIndex[sess.AcctSessionID] == sess {
 		delete(c.acctSessionIndex, sess.AcctSessionID)
 	}
-	if sess.Username != "" {
+	if sess.Username != "" && c.usernameIndex[sess.Username] == sess {
 		delete(c.usernameIndex, sess.Username)
 	}
 	if sess.IPv4Address != nil {
-		delete(c.ipv4Index, sess.IPv4Address.String())
+		if k := sess.IPv4Address.String(); c.ipv4Index[k] == sess {
+			delete(c.ipv4Index, k)
+		}
 	}
 	if sess.IPv6Address != nil {
-		delete(c.ipv6Index, sess.IPv6Address.String())
+		if k := sess.IPv6Address.String(); c.ipv6Index[k] == sess {
+			delete(c.ipv6Index, k)
+		}
 	}
 	if c.exclusivity != nil && sess.MixedAccess {
 		tk := session.MakeTupleKey(sess.OuterVLAN, sess.InnerVLAN, sess.MAC)
